@@ -39,8 +39,8 @@ Qed.
 Section Codecs.
   Variable b64_enc hex_enc : bytes -> bytes.
   Variable tool : bytes.
-  Variable opus_fixed : bool.
-  Let remux := remux opus_fixed.
+  Variable rtsp_fixed : bool.
+  Let remux := remux rtsp_fixed.
 
   (* one video message, analysis over, the packer exists (or is created now) *)
   Theorem remux_video s m c seq nals :
@@ -146,9 +146,9 @@ Definition is_rtp (o : rout) : Prop := match o with RRtp _ _ => True | RSdp _ =>
 Section Codecs2.
   Variable b64_enc hex_enc : bytes -> bytes.
   Variable tool : bytes.
-  Variable opus_fixed : bool.
+  Variable rtsp_fixed : bool.
 
-  Lemma get_audio_packer_done s : q_done (fst (get_audio_packer opus_fixed s)) = q_done s.
+  Lemma get_audio_packer_done s : q_done (fst (get_audio_packer rtsp_fixed s)) = q_done s.
   Proof.
     unfold get_audio_packer. destruct (q_apacker s); [reflexivity|].
     destruct (_ || _); [reflexivity|]. destruct (q_apt s =? pt_opus)%Z; [reflexivity|].
@@ -159,11 +159,11 @@ Section Codecs2.
   Lemma get_video_packer_done s : q_done (fst (get_video_packer s)) = q_done s.
   Proof. unfold get_video_packer. destruct (q_sps s); [|reflexivity]. destruct (q_vpacker s); reflexivity. Qed.
 
-  Lemma remux_only_rtp s m : Forall is_rtp (snd (RemuxRtmp2Rtp.remux opus_fixed s m)) /\ q_done (fst (RemuxRtmp2Rtp.remux opus_fixed s m)) = q_done s.
+  Lemma remux_only_rtp s m : Forall is_rtp (snd (RemuxRtmp2Rtp.remux rtsp_fixed s m)) /\ q_done (fst (RemuxRtmp2Rtp.remux rtsp_fixed s m)) = q_done s.
   Proof.
     unfold RemuxRtmp2Rtp.remux. destruct (rm_type m =? type_audio).
     - pose proof (get_audio_packer_done s) as Hd.
-      destruct (get_audio_packer opus_fixed s) as [s1 [[[k r] sq]|]]; cbn [fst] in Hd; [|split; [constructor|exact Hd]].
+      destruct (get_audio_packer rtsp_fixed s) as [s1 [[[k r] sq]|]]; cbn [fst] in Hd; [|split; [constructor|exact Hd]].
       destruct (rtp_pack _ _ _ _ _ _) as [pk sq']. cbn [fst snd set_apacker q_done]. split; [|exact Hd].
       apply Forall_map. apply Forall_forall. intros; exact I.
     - destruct (rm_type m =? type_video); [|split; [constructor|reflexivity]].
@@ -175,11 +175,11 @@ Section Codecs2.
   Qed.
 
   Lemma remux_all_only_rtp : forall ms s,
-    Forall is_rtp (snd (remux_all opus_fixed s ms)) /\ q_done (fst (remux_all opus_fixed s ms)) = q_done s.
+    Forall is_rtp (snd (remux_all rtsp_fixed s ms)) /\ q_done (fst (remux_all rtsp_fixed s ms)) = q_done s.
   Proof.
     induction ms as [|m t IH]; intros s; cbn [remux_all]; [split; [constructor|reflexivity]|].
-    destruct (remux_only_rtp s m) as [H1 H2]. destruct (RemuxRtmp2Rtp.remux opus_fixed s m) as [s1 o1]. cbn [fst snd] in *.
-    destruct (IH s1) as [H3 H4]. destruct (remux_all opus_fixed s1 t) as [s2 o2]. cbn [fst snd] in *.
+    destruct (remux_only_rtp s m) as [H1 H2]. destruct (RemuxRtmp2Rtp.remux rtsp_fixed s m) as [s1 o1]. cbn [fst snd] in *.
+    destruct (IH s1) as [H3 H4]. destruct (remux_all rtsp_fixed s1 t) as [s2 o2]. cbn [fst snd] in *.
     split; [apply Forall_app; now split|now rewrite H4].
   Qed.
 
@@ -188,23 +188,23 @@ Section Codecs2.
     else (outs = [] /\ done_after = false) \/ (exists r rest, outs = RSdp r :: rest /\ Forall is_rtp rest /\ done_after = true).
 
   Lemma do_analyze_sdp_first s : q_done s = false ->
-    sdp_first false (q_done (fst (do_analyze b64_enc hex_enc tool opus_fixed s))) (snd (do_analyze b64_enc hex_enc tool opus_fixed s)).
+    sdp_first false (q_done (fst (do_analyze b64_enc hex_enc tool rtsp_fixed s))) (snd (do_analyze b64_enc hex_enc tool rtsp_fixed s)).
   Proof.
     intros Hd. unfold do_analyze. destruct (negb (analyze_enough s)); [left; now split|].
     destruct (q_asc s) as [asc|].
     - destruct (asc_unpack asc) as [cx|e|p]; try (left; now split).
       destruct (asc_sampling_frequency cx); try (left; now split).
       set (s1 := mk_r2r _ _ _ _ _ _ _ _ _ _ _).
-      pose proof (remux_all_only_rtp (q_cache s1) s1) as [H1 _]. destruct (remux_all opus_fixed s1 (q_cache s1)) as [s2 outs].
+      pose proof (remux_all_only_rtp (q_cache s1) s1) as [H1 _]. destruct (remux_all rtsp_fixed s1 (q_cache s1)) as [s2 outs].
       right. eexists. eexists. cbn [fst snd q_done] in *. now repeat split.
     - set (s1 := mk_r2r _ _ _ _ _ _ _ _ _ _ _).
-      pose proof (remux_all_only_rtp (q_cache s1) s1) as [H1 _]. destruct (remux_all opus_fixed s1 (q_cache s1)) as [s2 outs].
+      pose proof (remux_all_only_rtp (q_cache s1) s1) as [H1 _]. destruct (remux_all rtsp_fixed s1 (q_cache s1)) as [s2 outs].
       right. eexists. eexists. cbn [fst snd q_done] in *. now repeat split.
   Qed.
 
   Lemma feed_sdp_first s i :
-    sdp_first (q_done s) (q_done (fst (feed_rtmp_msg b64_enc hex_enc tool opus_fixed s i)))
-              (snd (feed_rtmp_msg b64_enc hex_enc tool opus_fixed s i)).
+    sdp_first (q_done s) (q_done (fst (feed_rtmp_msg b64_enc hex_enc tool rtsp_fixed s i)))
+              (snd (feed_rtmp_msg b64_enc hex_enc tool rtsp_fixed s i)).
   Proof.
     unfold feed_rtmp_msg. destruct i as [ac rate|m].
     - cbn [fst snd set_audio_guess q_done]. unfold sdp_first. destruct (q_done s); [split; [reflexivity|constructor]|left; now split].
@@ -219,7 +219,9 @@ Section Codecs2.
       + destruct (_ || _); [cbn [fst snd]; split; [exact Ed|constructor]|].
         destruct (remux_only_rtp s0 m) as [H1 H2]. split; [now rewrite H2|exact H1].
       + destruct (is_avc_key_seq_header m).
-        { destruct (avc_parse_seq_header (rm_payload m)) as [[sp pq]|e|p]; apply do_analyze_sdp_first; exact Ed. }
+        { destruct (avc_parse_seq_header (rm_payload m)) as [[sp pq]|e|p]; try (apply do_analyze_sdp_first; exact Ed);
+            (destruct (if rtsp_fixed then avc_parse_seq_header_list (rm_payload m) else Err 0) as [[[|x1 l1] [|x2 l2]]|e2|p2];
+             apply do_analyze_sdp_first; exact Ed). }
         destruct (is_hevc_key_seq_header m).
         { destruct (is_ext_header m).
           - destruct (hevc_parse_enhanced_seq_header (rm_payload m)) as [[[v sp] q]|e|p]; apply do_analyze_sdp_first; exact Ed.
@@ -229,13 +231,13 @@ Section Codecs2.
 
   (* the whole run: nothing, or the SDP followed by RTP packets only *)
   Theorem rtsp_sdp_first : forall l s,
-    sdp_first (q_done s) (q_done (fst (feed_all_msgs b64_enc hex_enc tool opus_fixed s l)))
-              (snd (feed_all_msgs b64_enc hex_enc tool opus_fixed s l)).
+    sdp_first (q_done s) (q_done (fst (feed_all_msgs b64_enc hex_enc tool rtsp_fixed s l)))
+              (snd (feed_all_msgs b64_enc hex_enc tool rtsp_fixed s l)).
   Proof.
     induction l as [|i t IH]; intros s; cbn [feed_all_msgs].
     - cbn [fst snd]. unfold sdp_first. destruct (q_done s); [split; [reflexivity|constructor]|left; now split].
-    - pose proof (feed_sdp_first s i) as H1. destruct (feed_rtmp_msg b64_enc hex_enc tool opus_fixed s i) as [s1 o1]. cbn [fst snd] in H1.
-      specialize (IH s1). destruct (feed_all_msgs b64_enc hex_enc tool opus_fixed s1 t) as [s2 o2]. cbn [fst snd] in *.
+    - pose proof (feed_sdp_first s i) as H1. destruct (feed_rtmp_msg b64_enc hex_enc tool rtsp_fixed s i) as [s1 o1]. cbn [fst snd] in H1.
+      specialize (IH s1). destruct (feed_all_msgs b64_enc hex_enc tool rtsp_fixed s1 t) as [s2 o2]. cbn [fst snd] in *.
       unfold sdp_first in *. destruct (q_done s).
       + destruct H1 as [D1 R1]. rewrite D1 in IH. destruct IH as [D2 R2]. split; [exact D2|apply Forall_app; now split].
       + destruct H1 as [[-> D1]|(r & rest & -> & R1 & D1)]; rewrite D1 in IH.
@@ -243,3 +245,24 @@ Section Codecs2.
         * destruct IH as [D2 R2]. right. exists r, (rest ++ o2). repeat split; [|exact D2]. apply Forall_app; now split.
   Qed.
 End Codecs2.
+
+(* an AVC sequence header with several SPS / PPS during the analysis phase: the
+   first SPS and the first PPS become the remuxer's parameter sets (the pinned
+   tree dropped both) *)
+Lemma feed_avc_header_list b64 hex tool s m sps spss pps ppss :
+  q_done s = false -> rm_type m = type_video -> (lenN (rm_payload m) <=? 5) = false ->
+  is_avc_key_seq_header m = true ->
+  avc_parse_seq_header_list (rm_payload m) = Ok (sps :: spss, pps :: ppss) -> sps <> [] -> pps <> [] ->
+  (forall a b, avc_parse_seq_header (rm_payload m) = Ok (a, b) -> a = sps /\ b = pps) ->
+  feed_rtmp_msg b64 hex tool true s (RMsg m)
+  = do_analyze b64 hex tool true (set_params s (q_vps s) (Some sps) (Some pps)).
+Proof.
+  intros Hd Hty Hlen Hsh Hl Hs Hp Hone. unfold feed_rtmp_msg. rewrite Hty.
+  change (type_video =? type_audio) with false. change (type_video =? type_video) with true. cbv iota.
+  rewrite Hlen. cbn [andb]. rewrite Hd. cbn [negb]. rewrite Hsh.
+  assert (Hn : forall x, x <> [] -> nil_if_empty x = Some x) by (intros [|y t] H; [congruence|reflexivity]).
+  destruct (avc_parse_seq_header (rm_payload m)) as [[a b]|e|p] eqn:E.
+  - destruct (Hone a b eq_refl) as [-> ->]. now rewrite !Hn.
+  - rewrite Hl. now rewrite !Hn.
+  - rewrite Hl. now rewrite !Hn.
+Qed.
